@@ -3,7 +3,7 @@ import math
 from collections import Counter as PyCounter
 
 from .common import Violation
-from .acceptors_r import V, close, split_steps
+from .acceptors_r import V, close, split_steps, cfg_sessions, cfg_total_steps, cfg_tick
 from .explore_r import IndexMarket, LIMIT_ORDER, MARKET_ORDER, HighFrequencyAgent
 
 
@@ -17,13 +17,13 @@ def accepted_as_returned(e, sim):
     if ret is None:
         return True
     _, mid, is_buy, kind_id, price, vol, ttl = ret
-    tick = sim.id2market[e[1]].tick_size
+    tick = cfg_tick(sim, e[1])
     want_price = None if price is None else (price if price % tick == 0 else tick_round(price, tick, is_buy))
     return (post[1], post[4], post[5].kind_id, post[6], post[8]) == (mid, is_buy, kind_id, vol, ttl) and post[7] == want_price
 
 
 def session_start(sim, idx):
-    return sim.sessions[idx].session_start_time
+    return cfg_sessions(sim)[idx][0]
 
 
 # =================================================================================================
@@ -33,7 +33,7 @@ def session_start(sim, idx):
 def acc_C14(w):
     sim = w.runner.simulator
     meta = w.scn.meta
-    total = sum(s.iteration_steps for s in sim.sessions)
+    total = cfg_total_steps(sim)
     # ---- fundamental shocks: closed-form path for every market
     fshocks = meta.get("fshocks", [])
     for m in sim.markets:
@@ -93,7 +93,7 @@ def acc_C14(w):
             continue
         hit["done"] = True
         info = e[7]
-        tick = sim.id2market[e[1]].tick_size
+        tick = cfg_tick(sim, e[1])
         is_buy = hit["rate"] > 0
         want_price = tick_round(info["mp"] * (1 + hit["rate"]), tick, is_buy)
         V(l.kind == LIMIT_ORDER and l.is_buy == is_buy and l.volume == hit["volume"] and l.ttl == hit["lifetime"]
@@ -147,7 +147,8 @@ def acc_C15(w):
             r = rate_of[m.name]
             lo, hi = p0 * (1 - r), p0 * (1 + r)
             clipped = min(max(p, lo), hi)
-            want = clipped if clipped % m.tick_size == 0 else tick_round(clipped, m.tick_size, l.is_buy)
+            tk = cfg_tick(sim, e[1])
+            want = clipped if clipped % tk == 0 else tick_round(clipped, tk, l.is_buy)
             V(close(l.price, want, 1e-12) and (l.is_buy, l.volume, l.ttl, l.kind.kind_id) == (ret[2], ret[5], ret[6], ret[3]),
               "C15.clip", "a limit order accepted on a target market does not carry the submitted price clipped into the band and tick-rounded",
               "submitted %s p0=%s r=%s band=[%s,%s] accepted %s expected %s" % (p, p0, r, lo, hi, l.price, want))
@@ -159,7 +160,7 @@ def acc_C15(w):
                 w.wit.inc("on_band_edge")
             else:
                 w.wit.inc("inside_band")
-            if p != clipped and clipped % m.tick_size != 0:
+            if p != clipped and clipped % tk != 0:
                 w.wit.inc("clipped_then_rounded")
     # fills on target markets stay inside the band widened by one tick (whenever p0 never moved)
     for e in w.ev:
@@ -169,7 +170,7 @@ def acc_C15(w):
                 p0 = e[4]["mp0"]
                 r = rate_of[m.name]
                 for f in e[2]:
-                    V(p0 * (1 - r) - m.tick_size <= f.price <= p0 * (1 + r) + m.tick_size, "C15.fill_band",
+                    V(p0 * (1 - r) - cfg_tick(sim, e[1]) <= f.price <= p0 * (1 + r) + cfg_tick(sim, e[1]), "C15.fill_band",
                       "a trade on a target market happened outside the band widened by one tick", "price %s p0 %s r %s" % (f.price, p0, r))
                     w.wit.inc("fills_checked_against_band")
 
@@ -291,6 +292,12 @@ def _config_components(w, index_market):
     return [sim.name2market[n] for n in names]
 
 
+def _config_shares(w, market):
+    """a component's outstanding shares as the CONFIGURATION states them"""
+    blk = w.scn.cfg.get(market.name)
+    return blk["outstandingShares"] if blk is not None and "outstandingShares" in blk else market.outstanding_shares
+
+
 def make_index_observers():
     """after_clock: snapshot taken immediately after each clock advance of an index market."""
     def after_clock(w, market):
@@ -298,7 +305,7 @@ def make_index_observers():
             t = market.get_time()
             comps = _config_components(w, market)
             w.rec("idx_clock", market.market_id, t, market.get_fundamental_price(t),
-                  [(c.outstanding_shares, c.get_fundamental_price(t), c.get_time()) for c in comps])
+                  [(_config_shares(w, c), c.get_fundamental_price(t), c.get_time()) for c in comps])
 
     def obs(w, label):
         sim = w.runner.simulator
@@ -307,7 +314,7 @@ def make_index_observers():
                 t = m.get_time()
                 comps = _config_components(w, m)
                 w.rec("idx_obs", m.market_id, t,
-                      [(s_, m.get_index(s_), m.get_market_index(s_), [(c.outstanding_shares, c.get_market_price(s_)) for c in comps])
+                      [(s_, m.get_index(s_), m.get_market_index(s_), [(_config_shares(w, c), c.get_market_price(s_)) for c in comps])
                        for s_ in range(0, t + 1)])
     return obs, after_clock
 
